@@ -592,7 +592,17 @@ class Fn:
         return self.with_pre(pre, body, handler, ind)
 
     def returns(self, stmts):
-        return bool(stmts) and isinstance(stmts[-1], (ast.Return,))
+        """every path through the statement list ends in a return"""
+        if not stmts:
+            return False
+        last = stmts[-1]
+        if isinstance(last, ast.Return):
+            return True
+        if isinstance(last, ast.Try):
+            return self.returns(last.body) and all(self.returns(h.body) for h in last.handlers) and not last.orelse and not last.finalbody
+        if isinstance(last, ast.If):
+            return self.returns(last.body) and self.returns(last.orelse)
+        return False
 
     def if_(self, st, rest, env, handler, ind):
         # R12  if x is not not_found: return x
